@@ -39,17 +39,42 @@ Notation bit := (bit fb).
 Notation col := (col fb).
 
 (** * Decoding the grid *)
-Definition cell_of (s : asg) (t f : nat) : cell := find (fun l => bit s t f l) (seq 0 (nlevels fb f)).
+Notation Facts := (in_f1_facts fb HF1).
+
+Definition lev_of (c : cell) : nat := match c with Some x => x | None => 0 end.
+
+(** the cell of a factor of [act_design]: the level whose variable is on *)
+Definition cell_act (s : asg) (t f : nat) : cell := find (fun l => bit s t f l) (seq 0 (nlevels fb f)).
+
+(** the cell of an implied factor: the first level whose table accepts the levels
+    of the depended-on (act) factors in that trial ([add_implied_levels]) *)
+Definition impl_args (s : asg) (t : nat) (w : fwindow) : list nat :=
+  map (fun d => lev_of (cell_act s t d)) (win_deps w).
+
+Definition cell_impl (s : asg) (t f : nat) : cell :=
+  match factor_at fb f with
+  | Some fd => match ff_window fd with
+               | Some w => find (fun l => level_accepts fd l (impl_args s t w)) (seq 0 (nlevels fb f))
+               | None => None
+               end
+  | None => None
+  end.
+
+Definition cell_of (s : asg) (t f : nat) : cell :=
+  if isact fb f then cell_act s t f else cell_impl s t f.
 
 Definition decode (s : asg) : tseq :=
   map (fun f => map (fun t => cell_of s t f) (seq 0 (T fb))) (seq 0 (nf fb)).
 
-(** [q] is a complete sequence (one level per cell) and the grid part of [s] is its one-hot image *)
+(** [q] is a complete sequence (one level per cell), the grid part of [s] is the
+    one-hot image of its rows for the factors of [act_design], and its rows for
+    the implied factors are the levels derived from those *)
 Definition onehot (s : asg) (q : tseq) : Prop :=
   length q = nf fb /\
   (forall f, f < nf fb -> length (nth f q []) = T fb) /\
   (forall t f, t < T fb -> f < nf fb -> exists l, l < nlevels fb f /\ get_cell q f t = Some l) /\
-  (forall t f l, t < T fb -> f < nf fb -> l < nlevels fb f -> bit s t f l = is_level l (get_cell q f t)).
+  (forall t f l, t < T fb -> isact fb f = true -> l < nlevels fb f -> bit s t f l = is_level l (get_cell q f t)) /\
+  (forall t f, t < T fb -> f < nf fb -> isact fb f = false -> get_cell q f t = cell_impl s t f).
 
 Lemma decode_cell s t f : t < T fb -> f < nf fb -> get_cell (decode s) f t = cell_of s t f.
 Proof.
@@ -64,51 +89,110 @@ Qed.
 Lemma is_level_some l x : is_level l (Some x) = (x =? l).
 Proof. reflexivity. Qed.
 
+Lemma find_in_range (p : nat -> bool) n l : find p (seq 0 n) = Some l -> l < n /\ p l = true.
+Proof. intros H. apply find_some in H. destruct H as [A B]. apply in_seq in A. split; [lia|exact B]. Qed.
+
+Lemma find_exists (p : nat -> bool) (xs : list nat) : existsb p xs = true -> exists l, find p xs = Some l.
+Proof.
+  induction xs as [|x xs IH]; cbn [existsb find]; [discriminate|]. destruct (p x); [eauto|]. cbn [orb]. exact IH.
+Qed.
+
+Lemma in_product_lists (g : nat -> nat) (L : nat -> list nat) : forall deps,
+  (forall d, In d deps -> In (g d) (L d)) -> In (map g deps) (product (map L deps)).
+Proof.
+  induction deps as [|d deps IH]; intros H; [now left|].
+  cbn [map product]. apply in_flat_map. exists (g d). split; [apply H; now left|].
+  apply in_map. apply IH. intros e He. apply H. now right.
+Qed.
+
+(** an implied factor of an F1 record: its window, dependencies in [act_design], total table *)
+Lemma implied_facts f : f < nf fb -> isact fb f = false ->
+  exists fd w, nth_error (fl_design fb) f = Some fd /\ ff_window fd = Some w /\
+               Forall (fun d => isact fb d = true) (win_deps w) /\ tables_total fb fd = true.
+Proof.
+  intros Hf Ha. destruct (nth_error (fl_design fb) f) as [fd|] eqn:Efd.
+  2:{ apply nth_error_None in Efd. unfold nf in Hf. lia. }
+  pose proof (f1_implied fb Facts f fd Efd) as Hi. unfold implied_ok in Hi. rewrite Ha in Hi. cbn [orb] in Hi.
+  apply andb_true_iff in Hi. destruct Hi as [Hw Htot]. destruct (ff_window fd) as [w|] eqn:Ew; [|discriminate].
+  exists fd, w. split; [reflexivity|]. split; [exact Ew|]. split; [|exact Htot].
+  destruct (f1_tables fb Facts f fd Efd) as [Htab _]. unfold tables_ok in Htab. rewrite Ew in Htab.
+  apply andb_true_iff in Htab. destruct Htab as [Hd _]. rewrite forallb_forall in Hd. now apply Forall_forall.
+Qed.
+
+(** on a consistent grid every act cell is a level in range *)
+Lemma pcons_cell_act s t f : Pcons fb s -> t < T fb -> isact fb f = true ->
+  exists i, i < nlevels fb f /\ cell_act s t f = Some i /\ forall l, l < nlevels fb f -> bit s t f l = (l =? i).
+Proof.
+  intros H Ht Hf. specialize (H t f Ht Hf). apply ntrue_one in H. destruct H as (i & Hi & Hn).
+  rewrite map_length, seq_length in Hi, Hn. exists i. split; [exact Hi|].
+  assert (Hb : forall l, l < nlevels fb f -> bit s t f l = (l =? i)).
+  { intros l Hl. rewrite <- (Hn l Hl). now rewrite nth_map_seq. }
+  split; [|exact Hb]. unfold cell_act. now apply find_unique.
+Qed.
+
+(** ... and every implied cell is the level its table derives *)
+Lemma pcons_cell_impl s t f : Pcons fb s -> t < T fb -> f < nf fb -> isact fb f = false ->
+  exists l, l < nlevels fb f /\ cell_impl s t f = Some l.
+Proof.
+  intros H Ht Hf Ha. destruct (implied_facts f Hf Ha) as (fd & w & Efd & Ew & Hdeps & Htot).
+  unfold cell_impl, factor_at. rewrite Efd, Ew.
+  assert (Hin : In (impl_args s t w) (product (map (fun d => seq 0 (nlevels fb d)) (win_deps w)))).
+  { unfold impl_args. apply in_product_lists. intros d Hd.
+    destruct (pcons_cell_act s t d H Ht (proj1 (Forall_forall _ _) Hdeps d Hd)) as (i & Hi & Ei & _).
+    rewrite Ei. cbn [lev_of]. apply in_seq. lia. }
+  unfold tables_total in Htot. rewrite Ew, forallb_forall in Htot. specialize (Htot _ Hin).
+  assert (Enl : nlevels fb f = length (ff_levels fd)) by (unfold nlevels, factor_at; now rewrite Efd).
+  rewrite <- Enl in Htot. destruct (find_exists _ _ Htot) as (l & El). exists l. split; [|exact El].
+  now apply find_in_range in El.
+Qed.
+
 (** (b) for Consistency: exactly one level per cell = the grid is the one-hot image of its decoding *)
 Theorem pcons_onehot s : Pcons fb s <-> onehot s (decode s).
 Proof.
   split.
   - intros H. split; [unfold decode; now rewrite map_length, seq_length|]. split; [intros f Hf; now apply decode_row_length|].
-    assert (K : forall t f, t < T fb -> f < nf fb ->
-              exists i, i < nlevels fb f /\ cell_of s t f = Some i /\ forall l, l < nlevels fb f -> bit s t f l = (l =? i)).
-    { intros t f Ht Hf. specialize (H t f Ht Hf). apply ntrue_one in H. destruct H as (i & Hi & Hn).
-      rewrite map_length, seq_length in Hi, Hn. exists i. split; [exact Hi|].
-      assert (Hb : forall l, l < nlevels fb f -> bit s t f l = (l =? i)).
-      { intros l Hl. rewrite <- (Hn l Hl).
-        now rewrite nth_map_seq. }
-      split; [|exact Hb]. unfold cell_of. now apply find_unique. }
-    split.
-    + intros t f Ht Hf. destruct (K t f Ht Hf) as (i & Hi & Hc & _). exists i. split; [exact Hi|].
-      now rewrite decode_cell.
-    + intros t f l Ht Hf Hl. destruct (K t f Ht Hf) as (i & Hi & Hc & Hb). rewrite decode_cell, Hc, is_level_some by assumption.
+    split; [|split].
+    + intros t f Ht Hf. rewrite decode_cell by assumption. unfold cell_of. destruct (isact fb f) eqn:Ea.
+      * destruct (pcons_cell_act s t f H Ht Ea) as (i & Hi & Hc & _). exists i. now split.
+      * exact (pcons_cell_impl s t f H Ht Hf Ea).
+    + intros t f l Ht Hf Hl. destruct (pcons_cell_act s t f H Ht Hf) as (i & Hi & Hc & Hb).
+      rewrite decode_cell by (try assumption; now apply (f1_act_lt fb HF1)). unfold cell_of. rewrite Hf, Hc, is_level_some.
       rewrite (Hb l Hl). apply Nat.eqb_sym.
-  - intros (_ & _ & Hc & Hb) t f Ht Hf. destruct (Hc t f Ht Hf) as (i & Hi & Ei).
+    + intros t f Ht Hf Ha. rewrite decode_cell by assumption. unfold cell_of. now rewrite Ha.
+  - intros (_ & _ & Hc & Hb & _) t f Ht Hf. destruct (Hc t f Ht (f1_act_lt fb HF1 f Hf)) as (i & Hi & Ei).
     apply ntrue_one. rewrite map_length, seq_length. exists i. split; [exact Hi|]. intros j Hj.
     rewrite nth_map_seq by exact Hj.
     rewrite (Hb t f j Ht Hf Hj), Ei, is_level_some. apply Nat.eqb_sym.
 Qed.
 
-(** a one-hot grid determines the sequence *)
-Lemma onehot_cell s q t f : onehot s q -> t < T fb -> f < nf fb -> get_cell q f t = cell_of s t f.
-Proof.
-  intros (_ & _ & Hc & Hb) Ht Hf. destruct (Hc t f Ht Hf) as (i & Hi & Ei). rewrite Ei. symmetry.
-  unfold cell_of. apply find_unique; [exact Hi|]. intros j Hj. rewrite (Hb t f j Ht Hf Hj), Ei, is_level_some. apply Nat.eqb_sym.
-Qed.
-
 Lemma onehot_pcons s q : onehot s q -> Pcons fb s.
 Proof.
-  intros (_ & _ & Hc & Hb) t f Ht Hf. destruct (Hc t f Ht Hf) as (i & Hi & Ei).
+  intros (_ & _ & Hc & Hb & _) t f Ht Hf. destruct (Hc t f Ht (f1_act_lt fb HF1 f Hf)) as (i & Hi & Ei).
   apply ntrue_one. rewrite map_length, seq_length. exists i. split; [exact Hi|]. intros j Hj.
   rewrite nth_map_seq by exact Hj.
   rewrite (Hb t f j Ht Hf Hj), Ei, is_level_some. apply Nat.eqb_sym.
 Qed.
 
+(** a one-hot grid determines the sequence *)
+Lemma onehot_cell_act s q t f : onehot s q -> t < T fb -> isact fb f = true -> get_cell q f t = cell_act s t f.
+Proof.
+  intros (_ & _ & Hc & Hb & _) Ht Hf. destruct (Hc t f Ht (f1_act_lt fb HF1 f Hf)) as (i & Hi & Ei). rewrite Ei. symmetry.
+  unfold cell_act. apply find_unique; [exact Hi|]. intros j Hj. rewrite (Hb t f j Ht Hf Hj), Ei, is_level_some. apply Nat.eqb_sym.
+Qed.
+
+Lemma onehot_cell s q t f : onehot s q -> t < T fb -> f < nf fb -> get_cell q f t = cell_of s t f.
+Proof.
+  intros Ho Ht Hf. unfold cell_of. destruct (isact fb f) eqn:Ea.
+  - now apply onehot_cell_act.
+  - destruct Ho as (_ & _ & _ & _ & Hi). now apply Hi.
+Qed.
+
 (** * Columns of a one-hot grid are the rows of the sequence *)
 Lemma col_slice s q f l a b :
-  onehot s q -> f < nf fb -> l < nlevels fb f -> b <= T fb ->
+  onehot s q -> isact fb f = true -> l < nlevels fb f -> b <= T fb ->
   col s f l a b = map (is_level l) (slice (nth f q []) a b).
 Proof.
-  intros (Hq & Hr & Hc & Hb) Hf Hl Hbt. rewrite (map_seq_slice (is_level l) (nth f q []) None a b) by (rewrite Hr; assumption).
+  intros (Hq & Hr & Hc & Hb & _) Hf Hl Hbt. rewrite (map_seq_slice (is_level l) (nth f q []) None a b) by (rewrite Hr; [assumption|now apply (f1_act_lt fb HF1)]).
   unfold F1Kinds.col. apply map_ext_in. intros t Ht. apply in_seq in Ht. apply (Hb t f l ltac:(lia) Hf Hl).
 Qed.
 
@@ -120,7 +204,7 @@ Theorem atmost_sem s q k f l wb :
   (Patmost fb k f l wb s <-> constraint_ok sem q (mk_c (KAtMost k) f l (windows_of fb wb)) = true).
 Proof.
   intros Ho Hc. cbn [constraint_f1] in Hc. rewrite !andb_true_iff in Hc. destruct Hc as [[Hf Hl] Hg].
-  apply Nat.ltb_lt in Hf, Hl. destruct (geom_ok_some fb wb Hg) as [rs Ers].
+  apply Nat.ltb_lt in Hl. destruct (geom_ok_some fb wb Hg) as [rs Ers].
   pose proof (f1_ranges_bound fb wb rs Ers) as Hb. rewrite (ranges_of fb wb rs Ers) in *.
   unfold Patmost, constraint_ok, mk_c. cbn [k_kind k_factor k_level k_windows]. rewrite (ranges_of fb wb rs Ers).
   rewrite forallb_forall, Forall_forall. split; intros H r Hr; specialize (H r Hr);
@@ -138,7 +222,7 @@ Theorem exactlyk_sem s q k f l wb :
   (Pexactlyk fb k f l wb s <-> constraint_ok sem q (mk_c (KExactlyK k) f l (windows_of fb wb)) = true).
 Proof.
   intros Ho Hc. cbn [constraint_f1] in Hc. rewrite !andb_true_iff in Hc. destruct Hc as [[[Hf Hl] Hg] _].
-  apply Nat.ltb_lt in Hf, Hl. destruct (geom_ok_some fb wb Hg) as [rs Ers].
+  apply Nat.ltb_lt in Hl. destruct (geom_ok_some fb wb Hg) as [rs Ers].
   pose proof (f1_ranges_bound fb wb rs Ers) as Hb.
   unfold Pexactlyk, constraint_ok, mk_c. cbn [k_kind k_factor k_level k_windows]. rewrite (ranges_of fb wb rs Ers).
   rewrite forallb_forall, Forall_forall. split; intros H r Hr; specialize (H r Hr);
@@ -155,10 +239,10 @@ Theorem exclude_sem s q f l :
   onehot s q -> constraint_f1 fb (FExclude f l) = true ->
   (Pexclude fb f l s <-> constraint_ok sem q (mk_c KExclude f l []) = true).
 Proof.
-  intros Ho Hc. cbn [constraint_f1] in Hc. rewrite !andb_true_iff in Hc. destruct Hc as [Hf Hl]. apply Nat.ltb_lt in Hf, Hl.
+  intros Ho Hc. cbn [constraint_f1] in Hc. rewrite !andb_true_iff in Hc. destruct Hc as [Hf Hl]. apply Nat.ltb_lt in Hl.
   unfold Pexclude, constraint_ok, mk_c. cbn [k_kind k_factor k_level k_windows].
   rewrite (col_slice s q f l 0 (T fb) Ho Hf Hl (le_n _)).
-  destruct Ho as (_ & Hr & _). rewrite <- (Hr f Hf), slice_full, <- count_level_ntrue. symmetry. apply Nat.eqb_eq.
+  destruct Ho as (_ & Hr & _). rewrite <- (Hr f (f1_act_lt fb HF1 f Hf)), slice_full, <- count_level_ntrue. symmetry. apply Nat.eqb_eq.
 Qed.
 
 (** * (b) for Pin *)
@@ -167,11 +251,11 @@ Theorem pin_sem s q i f l wb :
   (Ppin fb i f l wb s <-> constraint_ok sem q (mk_c (KPin i (geometry_sustain fb wb f)) f l (windows_of fb wb)) = true).
 Proof.
   intros Ho Hc. cbn [constraint_f1] in Hc. rewrite !andb_true_iff in Hc. destruct Hc as [[[Hf Hl] Hg] Hs].
-  apply Nat.ltb_lt in Hf, Hl. apply Nat.eqb_eq in Hs. destruct (geom_ok_some fb wb Hg) as [rs Ers].
+  apply Nat.ltb_lt in Hl. apply Nat.eqb_eq in Hs. destruct (geom_ok_some fb wb Hg) as [rs Ers].
   pose proof (f1_ranges_bound fb wb rs Ers) as Hb.
   unfold Ppin, pins, constraint_ok, mk_c. cbn [k_kind k_factor k_level k_windows].
   rewrite (ranges_of fb wb rs Ers), Hs, (f1_trial_numbers fb f i wb rs Hs Ers).
-  destruct Ho as (Hq & Hr & Hcell & Hbit). cbv zeta.
+  destruct Ho as (Hq & Hr & Hcell & Hbit & _). cbv zeta.
   set (pos' := fun r : nat * nat => (if (i <? 0)%Z then Z.of_nat (snd r) + i else Z.of_nat (fst r) + i)%Z).
   assert (Epos : forall w : nat * nat,
             (if (0 <=? i)%Z then Z.of_nat (fst w) + i * Z.of_nat 1 else Z.of_nat (snd w) + i * Z.of_nat 1)%Z = pos' w).
